@@ -82,11 +82,13 @@ CLAIMED["C08"] = dict(
     ref="DESIGN.md section 6 C08")
 CLAIMED["C15"] = dict(
     text="TLC checks a step-cost counter of the parser design against a linear bound on every stream of the bound "
-         "(refuted at once with the pinned clone-on-close); the harness measures allocation of the real parsers on 13 "
-         "input families doubling to 1/4 MiB under a counting allocator, and TLC validates the measurements against "
-         "Trace_Cost (linear bound and doubling ratio <= 3).",
-    note="CPU observed through allocation; wall clock only as back-stop. Constants A=256 B/B, B=64 KiB from a measurement.",
-    technique="TLA+ cost invariant (TLC) + allocation traces of the real parser validated by TLC",
+         "(refuted at once with the pinned clone-on-close); the harness measures allocation (counting allocator) and "
+         "instructions executed (valgrind/callgrind) of the real parsers on 22 input families doubling to 1/4 MiB, each "
+         "parse in a child process with a time budget, and TLC validates the measurements against Trace_Cost (growth "
+         "between doubling sizes: allocation ratio <= 3, work ratio <= 2.5; generous absolute bounds).",
+    note="Growth decides; absolute bounds are ~40x above what is measured; wall clock only as back-stop; a child that exceeds its "
+         "budget is recorded as status timeout (a step TLC rejects).",
+    technique="TLA+ cost invariant (TLC) + allocation and instruction-count traces of the real parser validated by TLC",
     ref="DESIGN.md section 6 C15")
 
 CLAIMED["C16"] = dict(
@@ -183,8 +185,10 @@ CLAIMED["C18"] = dict(
     text="TLC explores the `ipputil print` session design (MC_Util: optional state check, printer answers, Print-Job "
          "reply, exit status; termination) over all command-line shapes and printer scripts and prints each; the real "
          "ipputil binary built from /repo is run as a child process against the loopback server for each (a seeded "
-         "stride in the quick tier) and TLC validates every request it sent (IppOps.Build of the arguments, options "
-         "typed by their text, document octets intact, nothing submitted to a stopped/blocked printer) and its exit status.",
+         "stride in the quick tier) and TLC validates every request it sent (the Print-Job request carries job-name, "
+         "requesting-user-name and every option typed by its text; document octets intact; the state query first; nothing "
+         "submitted to a stopped/blocked printer) and its exit status (zero iff every exchange succeeded; left open after a "
+         "successful query of a not-ready printer).",
     note="Responses come from the library's encoder (judged by C03); one binary run per session; quick tier samples ~1500 of ~14k sessions. "
          "The same run also validates two specification extensions (other ipputil commands; the six example programs incl. the multi-document "
          "job protocol); their rejections are printed as SPEC-EXTENSION-REJECTED and never counted against C18.",
